@@ -231,6 +231,58 @@ fn access_of_rw(n: usize, types: usize, mut code: u64, rw_mask: u64) -> (Vec<Vec
     (reads, writes)
 }
 
+/// Largest function id a call names (0 for `Fn`).
+fn max_fn_of(c: &BCall) -> usize {
+    match c {
+        BCall::Edge { a, b, .. } => std::cmp::max(*a, *b),
+        BCall::Edges { pairs, .. } => pairs.iter().map(|p| std::cmp::max(p[0], p[1])).max().unwrap_or(0),
+        BCall::Fn => 0,
+    }
+}
+
+/// Moves `add_fn` calls between the edge calls: the functions from `first_late` on are added as late as possible
+/// (`lazy`: right before the first call that names a function with the same or a higher id) or at random earlier
+/// points. Functions that no call names are added after the last call.
+fn interleave_fns(n: usize, calls: &[BCall], first_late: usize, lazy: bool, rng: &mut Rng) -> Vec<BCall> {
+    if n == 0 || first_late > n || calls.iter().any(|c| matches!(c, BCall::Fn)) {
+        return calls.to_vec();
+    }
+    let first_late = std::cmp::max(first_late, 1);
+    // need[i] = number of functions that must exist before call i
+    let need: Vec<usize> = calls.iter().map(max_fn_of).collect();
+    let mut out = Vec::new();
+    let mut have = first_late - 1;
+    for (i, c) in calls.iter().enumerate() {
+        let must = std::cmp::min(need[i], n);
+        let mut upto = must;
+        if !lazy && have < n {
+            // sometimes add more than needed already here
+            upto = std::cmp::max(must, have + rng.below(n - have + 1) / 2);
+        }
+        while have < upto {
+            out.push(BCall::Fn);
+            have += 1;
+        }
+        out.push(c.clone());
+    }
+    while have < n {
+        out.push(BCall::Fn);
+        have += 1;
+    }
+    out
+}
+
+/// Lists some declared types twice (declarations are lists, not sets: `|a: &T, b: &T|`).
+fn duplicate_some(rng: &mut Rng, reads: &mut [Vec<usize>], writes: &mut [Vec<usize>], pct: u64) {
+    for v in reads.iter_mut().chain(writes.iter_mut()) {
+        if !v.is_empty() && rng.next() % 100 < pct {
+            let t = v[rng.below(v.len())];
+            let pos = rng.below(v.len() + 1);
+            v.insert(pos, t);
+        }
+    }
+}
+
 fn random_dag(rng: &mut Rng, n: usize, density_pct: u64, fwd_only: bool) -> Vec<(usize, usize)> {
     // random permutation as topological order, so edges can point from high ids to low ids
     let mut perm: Vec<usize> = (1..=n).collect();
@@ -519,6 +571,7 @@ fn base_scn(id: String, n: usize, calls: Vec<BCall>, reads: Vec<Vec<usize>>, wri
         burn: vec![],
         threads: false,
         xdrop: false,
+        watchdog: false,
     }
 }
 
@@ -568,7 +621,16 @@ pub fn generate(p: &GenParams, out: &mut Out) {
                                     v.reverse();
                                 }
                             }
-                            let mut s = base_scn(format!("b{n}-{gi}-{ki}-{code}"), n, calls_of(e, km), reads, writes);
+                            // a fifth of the inputs: a declared type listed twice; a quarter: add_fn between the edge calls
+                            let mut hr = Rng::new(h);
+                            if h % 5 == 2 {
+                                duplicate_some(&mut hr, &mut reads, &mut writes, 60);
+                            }
+                            let mut calls = calls_of(e, km);
+                            if h % 4 == 1 && n >= 2 {
+                                calls = interleave_fns(n, &calls, 1 + hr.below(n), h % 8 == 1, &mut hr);
+                            }
+                            let mut s = base_scn(format!("b{n}-{gi}-{ki}-{code}"), n, calls, reads, writes);
                             s.phases.push(Phase::Seq { fail_at: (h % (n as u64 + 2)) as usize });
                             s.phases.push(Phase::GraphInfo);
                             if h % 7 == 0 {
@@ -620,7 +682,12 @@ pub fn generate(p: &GenParams, out: &mut Out) {
                         if !sel.take() {
                             continue;
                         }
-                        let calls: Vec<BCall> = sq.iter().map(|&i| alphabet[i].clone()).collect();
+                        let mut calls: Vec<BCall> = sq.iter().map(|&i| alphabet[i].clone()).collect();
+                        // a third of the sequences: functions are added between the edge calls
+                        if si % 3 == 1 && n >= 2 {
+                            let mut hr = Rng::new(mix(si as u64, n as u64));
+                            calls = interleave_fns(n, &calls, 1 + hr.below(n), si % 2 == 1, &mut hr);
+                        }
                         let mut s = base_scn(format!("c{n}-{}-{si}", sq.len()), n, calls, vec![], vec![]);
                         if mix(si as u64, 77) % 5 == 0 {
                             s.phases.push(Phase::Eq);
@@ -663,6 +730,13 @@ pub fn generate(p: &GenParams, out: &mut Out) {
                         calls.push(BCall::Edge { kind, a: 1 + rng.below(n), b: 1 + rng.below(n) });
                     }
                 }
+                let calls = if rng.chance(1, 3) {
+                    let fl = 1 + rng.below(n);
+                    let lazy = rng.chance(1, 2);
+                    interleave_fns(n, &calls, fl, lazy, &mut rng)
+                } else {
+                    calls
+                };
                 let s = base_scn(format!("cb-{i}"), n, calls, vec![], vec![]);
                 let r = run_scenario(&s, p.hooks, &ExploreOpts::default());
                 emit(&s, &r.trace);
@@ -689,6 +763,17 @@ pub fn generate(p: &GenParams, out: &mut Out) {
                     let pos = rng.below(calls.len() + 1);
                     calls.insert(pos, BCall::Edge { kind, a, b });
                 }
+                let (mut reads, mut writes) = (reads, writes);
+                if rng.chance(1, 4) {
+                    duplicate_some(&mut rng, &mut reads, &mut writes, 40);
+                }
+                let calls = if rng.chance(1, 3) {
+                    let fl = 1 + rng.below(n);
+                    let lazy = rng.chance(1, 2);
+                    interleave_fns(n, &calls, fl, lazy, &mut rng)
+                } else {
+                    calls
+                };
                 if !sel.take() {
                     continue;
                 }
@@ -747,10 +832,20 @@ pub fn generate(p: &GenParams, out: &mut Out) {
                 let none = *rng.pick(&[0u64, 40, 80, 95]);
                 let (reads, writes) = random_access(&mut rng, n, types, none);
                 let km = rng.next();
+                let (mut reads, mut writes) = (reads, writes);
+                if rng.chance(1, 4) {
+                    duplicate_some(&mut rng, &mut reads, &mut writes, 20);
+                }
+                let mut calls = calls_of(&e, km);
+                if rng.chance(1, 4) {
+                    let fl = 1 + rng.below(n);
+                    let lazy = rng.chance(1, 2);
+                    calls = interleave_fns(n, &calls, fl, lazy, &mut rng);
+                }
                 if !sel.take() {
                     continue;
                 }
-                let mut s = base_scn(format!("bb-{i}"), n, calls_of(&e, km), reads, writes);
+                let mut s = base_scn(format!("bb-{i}"), n, calls, reads, writes);
                 s.phases.push(Phase::Seq { fail_at: rng.below(n + 2) });
                 s.phases.push(Phase::GraphInfo);
                 let r = run_scenario(&s, p.hooks, &ExploreOpts::default());
@@ -956,6 +1051,54 @@ pub fn generate(p: &GenParams, out: &mut Out) {
                     }
                 }
                 emit(&s, &r.trace);
+            }
+            // a conflicting pair (s, t) with a sub-DAG of exponentially many paths between them in (rank, insertion)
+            // order that does not reach t: whatever decides "is there a path s ~> t" must not walk every path.
+            // build() runs under the watchdog (normally milliseconds; given up after 30 s).
+            for (li, &layers) in [20usize, 28, 34].iter().enumerate() {
+                for variant in 0..2usize {
+                    if over {
+                        break;
+                    }
+                    let lat0 = 2;
+                    let chain0 = lat0 + 2 * layers;
+                    let chain_len = layers + 1;
+                    let t = chain0 + chain_len;
+                    let n = t;
+                    if n > cap {
+                        continue;
+                    }
+                    let mut e: Vec<(usize, usize)> = vec![(1, lat0), (1, lat0 + 1)];
+                    for l in 0..(layers - 1) {
+                        for a in 0..2 {
+                            for b in 0..2 {
+                                e.push((lat0 + 2 * l + a, lat0 + 2 * (l + 1) + b));
+                            }
+                        }
+                    }
+                    for c in 0..chain_len {
+                        e.push((chain0 + c, chain0 + c + 1));
+                    }
+                    if variant == 1 {
+                        e.reverse();
+                    }
+                    let mut reads = vec![vec![]; n];
+                    let mut writes = vec![vec![]; n];
+                    writes[0].push(1);
+                    if variant == 0 {
+                        writes[t - 1].push(1);
+                    } else {
+                        reads[t - 1].push(1);
+                    }
+                    idx += 1;
+                    if !sel.take() {
+                        continue;
+                    }
+                    let mut s = base_scn(format!("lat{layers}-{variant}-{li}-{idx}"), n, calls_of(&e, if variant == 1 { u64::MAX } else { 0 }), reads, writes);
+                    s.watchdog = true;
+                    let r = run_scenario(&s, false, &ExploreOpts::default());
+                    emit(&s, &r.trace);
+                }
             }
             // random dense
             let mut rng = Rng::new(p.seed ^ 0xDE75E);
